@@ -80,8 +80,10 @@ Inductive fresult :=
 | FConf (c : config).
 
 (* ---------- leader bookkeeping ---------- *)
-Record fstate := { f_next : N; f_match : N; f_snap : option (snap * N) (* open snapshot being sent, read offset *) }.
-Definition fstate0 : fstate := {| f_next := 0; f_match := 0; f_snap := None |}.
+(* a *follower object; [f_gen] is its identity: goroutines keep the pointer across an RPC while
+   AddServer / nextConfiguration may put a new object into r.followers *)
+Record fstate := { f_next : N; f_match : N; f_snap : option (snap * N) (* open snapshot being sent, read offset *); f_gen : N }.
+Definition fstate0 : fstate := {| f_next := 0; f_match := 0; f_snap := None; f_gen := 0 |}.
 
 Record rop := { ro_fid : N; ro_type : optype; ro_payload : N; ro_read_index : N; ro_verified : bool;
                 ro_round : N (* heartbeat rounds started when the read was submitted *) }.
@@ -120,6 +122,8 @@ Record node := {
   n_conf : option config; n_cconf : option config;
   n_leader : option nid;
   n_followers : list (nid * fstate);
+  n_fgen : N;                      (* identity of the next follower object *)
+  n_orphans : list fstate;         (* follower objects no longer in r.followers that a goroutine may still hold *)
   n_pending : list (N * N);      (* pendingReplicated: index -> future id *)
   n_ro : list rop;               (* pendingReadOnly *)
   n_should_verify : bool;
@@ -145,10 +149,10 @@ Record node := {
 
 #[export] Instance eta_node : Settable _ := settable! Build_node
   <n_id; n_et; n_ld; n_pterm; n_pvote; n_term; n_vote; n_log; n_snaps; n_partial; n_open; n_role; n_commit; n_applied; n_lii; n_lit;
-   n_conf; n_cconf; n_leader; n_followers; n_pending; n_ro; n_should_verify; n_cfg_fid; n_hb_rounds; n_lease; n_contact;
+   n_conf; n_cconf; n_leader; n_followers; n_fgen; n_orphans; n_pending; n_ro; n_should_verify; n_cfg_fid; n_hb_rounds; n_lease; n_contact;
    n_rounds; n_next_round; n_tasks; n_cv; n_iswait; n_fsm; n_snap_every; n_pad; n_budget; n_frozen; n_out;
    n_results; n_applies>.
 #[export] Instance eta_conds : Settable _ := settable! Build_conds <cv_apply; cv_commit; cv_ro; cv_election; cv_snapshot>.
-#[export] Instance eta_fstate : Settable _ := settable! Build_fstate <f_next; f_match; f_snap>.
+#[export] Instance eta_fstate : Settable _ := settable! Build_fstate <f_next; f_match; f_snap; f_gen>.
 
 Definition conf_of (n : node) : config := match n_conf n with Some c => c | None => config0 end.
